@@ -214,7 +214,7 @@ def _jvp(res, flags):
   import flax.linen as nn
   G, _ = M()
   seed = int(os.environ.get('VERIF_SEED', '0'))
-  for vt in (['params'], ['params', 'extra'], []):
+  for vt in (['params'], ['params', 'extra'], [], ['params', 'cnt']):
     for nprim in (1, 2):
       for dict_form in (False, True):
         cfg = dict(api='jvp', flags=list(flags), variable_tangents=vt, primals=nprim,
@@ -282,7 +282,7 @@ def _jvp(res, flags):
             V('publish-once', 'counter not increased by exactly one', basis=j)
             ok = False
         # tangents for an unselected collection must not enter
-        unsel = [c for c in inner if c not in cols and c != 'cnt']
+        unsel = [c for c in inner if c not in cols and c != 'cnt']  # (a selected cnt: zero tangent)
         if unsel and ok:
           res['evals'] += 1
           zero_p = jax.tree.map(jnp.zeros_like, prim)
